@@ -8,6 +8,7 @@ import Mathlib.Tactic.Ring
 import Mathlib.Tactic.FieldSimp
 import Mathlib.Tactic.LinearCombination
 import Mathlib.Algebra.Field.Basic
+import Mathlib.Tactic.NormNum
 namespace Lcapy.Formulations
 open Lcapy.MNA Ix
 variable {K : Type} [Field K]
@@ -193,5 +194,326 @@ theorem pairsFrom_telescope (φ : GNode → K) (first a : GNode) (t : List GNode
   induction t generalizing a with
   | nil => simp [pairsFrom, lsum]
   | cons b t ih => simp [pairsFrom, lsum, ih b]
+
+/-! ### the circuit graph -/
+
+/-- what `CircuitGraph.from_circuit` guarantees of every edge: a component edge starts at the
+    component's first node and ends at its second node or at a dummy standing for it; a dummy wire
+    joins a dummy to the node it stands for -/
+def EdgeOK (cs : List (Cpt K)) (e : Edge K) : Prop :=
+  match e.cpt with
+  | some (_, c) => c ∈ cs ∧ ∃ n0 n1, nodes2 c = some (n0, n1) ∧ e.a = .real n0 ∧ (e.b = .real n1 ∨ ∃ d, e.b = .dummy d n1)
+  | none => ∃ d n, e.a = .dummy d n ∧ e.b = .real n
+
+theorem addCpt_ok (cs : List (Cpt K)) (st : List (Edge K) × Nat) (ic : Nat × Cpt K) (hic : ic.2 ∈ cs)
+    (h : ∀ e ∈ st.1, EdgeOK cs e) : ∀ e ∈ (addCpt st ic).1, EdgeOK cs e := by
+  intro e he
+  unfold addCpt at he
+  cases hn : nodes2 ic.2 with
+  | none => rw [hn] at he; exact h e he
+  | some n12 =>
+    obtain ⟨n1, n2⟩ := n12
+    rw [hn] at he
+    simp only at he
+    split_ifs at he
+    · simp only [List.mem_append, List.mem_cons, List.mem_nil_iff, or_false] at he
+      rcases he with he | rfl | rfl
+      · exact h e he
+      · exact ⟨hic, n1, n2, hn, rfl, Or.inr ⟨_, rfl⟩⟩
+      · exact ⟨_, _, rfl, rfl⟩
+    · simp only [List.mem_append, List.mem_cons, List.mem_nil_iff, or_false] at he
+      rcases he with he | rfl
+      · exact h e he
+      · exact ⟨hic, n1, n2, hn, rfl, Or.inl rfl⟩
+
+theorem foldl_addCpt_ok (cs : List (Cpt K)) (l : List (Nat × Cpt K)) (hl : ∀ ic ∈ l, ic.2 ∈ cs) :
+    ∀ st : List (Edge K) × Nat, (∀ e ∈ st.1, EdgeOK cs e) → ∀ e ∈ (l.foldl addCpt st).1, EdgeOK cs e := by
+  induction l with
+  | nil => intro st h; simpa using h
+  | cons ic rest ih =>
+    intro st h
+    simp only [List.foldl_cons]
+    exact ih (fun ic' h' => hl ic' (by simp [h'])) _ (addCpt_ok cs st ic (hl ic (by simp)) h)
+
+/-- every edge of the graph built from the netlist is well formed -/
+theorem buildGraph_ok (cs : List (Cpt K)) : ∀ e ∈ buildGraph cs, EdgeOK cs e := by
+  unfold buildGraph
+  apply foldl_addCpt_ok cs (enum cs)
+  · intro ic hic
+    exact (List.of_mem_zip hic).2
+  · intro e he; simp at he
+
+theorem joins_iff (e : Edge K) (p q : GNode) :
+    e.joins p q = true ↔ (e.a = p ∧ e.b = q) ∨ (e.a = q ∧ e.b = p) := by
+  simp [Edge.joins]
+
+/-! ### mesh forms -/
+
+theorem meshEval_scale (im : Nat → K) (z c0 : K) (l : List (Nat × K)) :
+    (⟨scaleCoeffs z l, c0⟩ : MeshForm K).eval im = z * lsum (l.map (fun p => p.2 * im p.1)) + c0 := by
+  simp only [MeshForm.eval]
+  congr 1
+  induction l with
+  | nil => simp [scaleCoeffs, lsum]
+  | cons h t ih =>
+    simp only [scaleCoeffs, List.map_cons, lsum] at *
+    rw [ih]; ring
+
+theorem meshEval_add (im : Nat → K) (f g : MeshForm K) : (f.add g).eval im = f.eval im + g.eval im := by
+  simp [MeshForm.add, MeshForm.eval, lsum_append]; ring
+
+/-- the mesh formulation is defined for the component (an impedance exists) -/
+def MeshOk (kind : Kind) (s : K) : Cpt K → Prop
+  | .R a b r => a ≠ b ∧ r ≠ 0
+  | .Y a b y => a ≠ b ∧ y ≠ 0
+  | .Cap a b c _ => a ≠ b ∧ s * c ≠ 0 ∧ (kind = .lap ∨ kind = .ivp)
+  | .Ind a b _ _ _ coup => a ≠ b ∧ coup = [] ∧ kind ≠ .time
+  | .V a b _ _ => a ≠ b
+  | _ => False
+
+/-- the component carries no initial-condition term in this analysis kind -/
+def NoIC (kind : Kind) (s : K) (c : Cpt K) : Prop :=
+  match volEq kind s c with
+  | some (_, v0) => isV c = true ∨ v0 = 0
+  | none => True
+
+/-- current through a passive component from its first to its second node, by the spec -/
+def through (kind : Kind) (s : K) (x : Ix → K) : Cpt K → K
+  | .R a b r => vd x a b / r
+  | .Y a b y => y * vd x a b
+  | .Cap a b c v0 => capCurrent kind s c v0 (vd x a b)
+  | .Ind _ _ m _ _ _ => x (.br m)
+  | _ => 0
+
+/-- the code's `current` for a component: signed sum of the mesh currents it finds -/
+def meshCurrent (patched : Bool) (g : List (Edge K)) (loops : List (List GNode)) (idx : Nat) (c : Cpt K)
+    (im : Nat → K) : K :=
+  match nodes2 c with
+  | some (n0, n1) =>
+    lsum ((accCoeffs (K := K) (if patched then accEdge g loops idx n0 else accNames loops n0 n1)).map
+      (fun p => p.2 * im p.1))
+  | none => 0
+
+/-- branch relation in impedance form: z·J + v0 = V(n0) − V(n1) -/
+theorem volEq_law (kind : Kind) (s : K) (x : Ix → K) (c : Cpt K) (hok : MeshOk kind s c) (hv : isV c = false)
+    (hlaw : ∀ p ∈ laws kind s x c, p.2 = 0) (n0 n1 : Nat) (hn : nodes2 c = some (n0, n1)) :
+    ∃ z v0, volEq kind s c = some (z, v0) ∧ z * through kind s x c + v0 = vd x n0 n1 := by
+  cases c with
+  | R a b r =>
+    simp [nodes2] at hn; obtain ⟨rfl, rfl⟩ := hn
+    exact ⟨r, 0, rfl, by simp [through]; field_simp [hok.2]⟩
+  | Y a b y =>
+    simp [nodes2] at hn; obtain ⟨rfl, rfl⟩ := hn
+    refine ⟨1 / y, 0, rfl, ?_⟩
+    have := hok.2
+    simp [through]; field_simp
+  | Cap a b cc v0 =>
+    simp [nodes2] at hn; obtain ⟨rfl, rfl⟩ := hn
+    obtain ⟨_, hsc, hk⟩ := hok
+    have hs : s ≠ 0 := left_ne_zero_of_mul hsc
+    have hcc : cc ≠ 0 := right_ne_zero_of_mul hsc
+    rcases hk with rfl | rfl
+    · exact ⟨1 / (s * cc), 0, rfl, by simp [through, capCurrent]; field_simp⟩
+    · cases v0 with
+      | none => exact ⟨1 / (s * cc), 0, rfl, by simp [through, capCurrent]; field_simp⟩
+      | some v0 => exact ⟨1 / (s * cc), v0 / s, rfl, by simp [through, capCurrent]; field_simp; ring⟩
+  | Ind a b m l i0 coup =>
+    simp [nodes2] at hn; obtain ⟨rfl, rfl⟩ := hn
+    obtain ⟨_, rfl, hk⟩ := hok
+    cases kind with
+    | time => exact absurd rfl hk
+    | dc =>
+      have := hlaw (m, _) (by simp [laws]; rfl)
+      exact ⟨0, 0, rfl, by simp [through]; simpa using this.symm⟩
+    | lap =>
+      have := hlaw (m, _) (by simp [laws]; rfl)
+      simp [mutualDrop, lsum] at this
+      exact ⟨s * l, 0, rfl, by simp [through]; linear_combination (-1 : K) * this⟩
+    | ivp =>
+      cases i0 with
+      | none =>
+        have := hlaw (m, _) (by simp [laws]; rfl)
+        simp [mutualDrop, lsum] at this
+        exact ⟨s * l, 0, rfl, by simp [through]; linear_combination (-1 : K) * this⟩
+      | some i0 =>
+        have := hlaw (m, _) (by simp [laws]; rfl)
+        simp [mutualDrop, lsum] at this
+        exact ⟨s * l, -(l * i0), rfl, by simp [through]; linear_combination (-1 : K) * this⟩
+  | V a b m v => simp [isV] at hv
+  | _ => simp [MeshOk] at hok
+
+theorem find_joins (g : List (Edge K)) (p q : GNode) (h : hasEdge g p q = true) :
+    ∃ e, g.find? (fun e => e.joins p q) = some e ∧ e ∈ g ∧ e.joins p q = true := by
+  simp only [hasEdge, List.any_eq_true] at h
+  obtain ⟨e0, he0, hj0⟩ := h
+  cases hf : g.find? (fun e => e.joins p q) with
+  | none =>
+    rw [List.find?_eq_none] at hf
+    exact absurd hj0 (hf e0 he0)
+  | some e =>
+    exact ⟨e, rfl, List.mem_of_find?_eq_some hf, by simpa using List.find?_some hf⟩
+
+/-- the contribution of one consecutive pair (a, b) of a loop to the KVL sum is the potential
+    rise  φ(b) − φ(a)  once the mesh currents carry the component's actual current -/
+theorem meshTerm_eval (patched : Bool) (kind : Kind) (s : K) (cs : List (Cpt K)) (g : List (Edge K))
+    (hg : ∀ e ∈ g, EdgeOK cs e) (loops : List (List GNode)) (x : Ix → K) (im : Nat → K)
+    (hlaws : Laws kind s cs x) (hok : ∀ c ∈ cs, MeshOk kind s c)
+    (hasis : patched = false → (∀ e ∈ g, ∃ n, e.b = .real n) ∧ ∀ c ∈ cs, NoIC kind s c)
+    (ab : GNode × GNode) (hadj : hasEdge g ab.1 ab.2 = true)
+    (hcons : ∀ idx c, component g ab.1 ab.2 = some (idx, c) → isV c = false →
+        meshCurrent patched g loops idx c im = -(through kind s x c))
+    (t : MeshForm K) (ht : meshTerm patched kind s g loops ab = some t) :
+    t.eval im = gvolt x ab.2 - gvolt x ab.1 := by
+  obtain ⟨a, b⟩ := ab
+  simp only at hadj hcons ⊢
+  obtain ⟨e, hfind, hmem, hj⟩ := find_joins g a b hadj
+  have hcomp : component g a b = e.cpt := by simp [component, hfind]
+  have heok := hg e hmem
+  rw [joins_iff] at hj
+  unfold meshTerm at ht
+  simp only [hcomp] at ht hcons
+  cases hc : e.cpt with
+  | none =>
+    rw [hc] at ht
+    simp only [Option.some.injEq] at ht
+    subst ht
+    simp only [EdgeOK, hc] at heok
+    obtain ⟨d, n, ha, hb⟩ := heok
+    rcases hj with ⟨h1, h2⟩ | ⟨h1, h2⟩ <;>
+      (rw [← h1, ← h2, ha, hb]; simp [MeshForm.eval, lsum, gvolt])
+  | some ic =>
+    obtain ⟨idx, c⟩ := ic
+    rw [hc] at ht hcons
+    simp only [EdgeOK, hc] at heok
+    obtain ⟨hcs, n0, n1, hn, hea, heb⟩ := heok
+    have hmok := hok c hcs
+    have hne : n0 ≠ n1 := by
+      cases c <;> simp [nodes2] at hn <;> simp [MeshOk] at hmok <;> (obtain ⟨rfl, rfl⟩ := hn) <;> tauto
+    have hI : isI c = false := by cases c <;> simp [MeshOk] at hmok <;> rfl
+    -- the value v of the code before the flip evaluates to V(n0) − V(n1)
+    have hv : ∃ z v0, volEq kind s c = some (z, v0) ∧
+        ((if isV c then (⟨[], v0⟩ : MeshForm K)
+          else if patched then
+            ⟨scaleCoeffs (-z) (accCoeffs (if patched then accEdge g loops idx n0 else accNames loops n0 n1)), v0⟩
+          else ⟨scaleCoeffs (-z) (accCoeffs (if patched then accEdge g loops idx n0 else accNames loops n0 n1)), -v0⟩).eval im
+          = vd x n0 n1) := by
+      cases hV : isV c with
+      | true =>
+        cases c <;> simp [isV] at hV
+        rename_i p q m v
+        simp [nodes2] at hn; obtain ⟨rfl, rfl⟩ := hn
+        have := hlaws.2 _ hcs (m, _) (by simp [laws]; rfl)
+        simp only at this
+        exact ⟨0, v, rfl, by simp [MeshForm.eval, lsum]; linear_combination (-1 : K) * this⟩
+      | false =>
+        obtain ⟨z, v0, hvol, hz⟩ := volEq_law kind s x c hmok hV (hlaws.2 c hcs) n0 n1 hn
+        refine ⟨z, v0, hvol, ?_⟩
+        have hcur := hcons idx c rfl hV
+        simp only [meshCurrent, hn] at hcur
+        cases patched with
+        | true =>
+          simp only [if_true, Bool.false_eq_true, if_false] at hcur ⊢
+          rw [meshEval_scale, hcur, ← hz]; ring
+        | false =>
+          have hnoic := (hasis rfl).2 c hcs
+          simp only [NoIC, hvol, hV, Bool.false_eq_true, false_or] at hnoic
+          simp only [Bool.false_eq_true, if_false] at hcur ⊢
+          rw [meshEval_scale, hcur, ← hz, hnoic]; ring
+    obtain ⟨z, v0, hvol, hval⟩ := hv
+    simp only [hn, hvol, hI, Bool.false_eq_true, if_false, Option.some.injEq] at ht
+    subst ht
+    -- orientation
+    rcases hj with ⟨h1, h2⟩ | ⟨h1, h2⟩
+    · -- traversed from the first node: flipped
+      have ha : a = .real n0 := by rw [← h1, hea]
+      have hrev : (if patched then a == GNode.real n0 else (a == GNode.real n0 && b == GNode.real n1)) = true := by
+        cases patched with
+        | true => simp [ha]
+        | false =>
+          obtain ⟨n, hn'⟩ := (hasis rfl).1 e hmem
+          have hb : b = .real n1 := by
+            rw [← h2]
+            rcases heb with h | ⟨d, h⟩
+            · exact h
+            · rw [h] at hn'; cases hn'
+          simp [ha, hb]
+      have hgb : gvolt x b = volt x n1 := by
+        rw [← h2]; rcases heb with h | ⟨d, h⟩ <;> simp [h, gvolt]
+      rw [hrev]
+      simp only [if_true]
+      rw [meshEval_scale, hgb, ha]
+      simp only [gvolt]
+      simp only [MeshForm.eval] at hval
+      simp only [vd] at hval
+      linear_combination (-1 : K) * hval
+    · -- traversed towards the first node
+      have hb : b = .real n0 := by rw [← h1, hea]
+      have hga : gvolt x a = volt x n1 := by
+        rw [← h2]; rcases heb with h | ⟨d, h⟩ <;> simp [h, gvolt]
+      have hrev : (if patched then a == GNode.real n0 else (a == GNode.real n0 && b == GNode.real n1)) = false := by
+        have hane : (a == GNode.real n0) = false := by
+          rw [← h2]
+          rcases heb with h | ⟨d, h⟩
+          · rw [h]; simp; exact fun h' => hne h'.symm
+          · rw [h]; simp
+        cases patched <;> simp [hane]
+      rw [hrev]
+      simp only [Bool.false_eq_true, if_false]
+      rw [hga, hb]
+      simp only [gvolt]
+      simp only [vd] at hval
+      exact hval
+
+/-- the whole KVL sum of a loop -/
+theorem meshEq_eval (patched : Bool) (kind : Kind) (s : K) (g : List (Edge K)) (loops : List (List GNode))
+    (x : Ix → K) (im : Nat → K) (ps : List (GNode × GNode))
+    (hterm : ∀ ab ∈ ps, ∀ t, meshTerm patched kind s g loops ab = some t → t.eval im = gvolt x ab.2 - gvolt x ab.1)
+    (f : MeshForm K)
+    (hf : ps.foldr (fun ab acc => match meshTerm patched kind s g loops ab, acc with
+        | some t, some r => some (t.add r) | _, _ => none) (some ⟨[], 0⟩) = some f) :
+    f.eval im = lsum (ps.map (fun pq => gvolt x pq.2 - gvolt x pq.1)) := by
+  induction ps generalizing f with
+  | nil =>
+    simp only [List.foldr_nil, Option.some.injEq] at hf
+    subst hf
+    simp [MeshForm.eval, lsum]
+  | cons ab rest ih =>
+    simp only [List.foldr_cons] at hf
+    cases h1 : meshTerm patched kind s g loops ab with
+    | none => rw [h1] at hf; simp at hf
+    | some t =>
+      rw [h1] at hf
+      cases h2 : rest.foldr (fun ab acc => match meshTerm patched kind s g loops ab, acc with
+          | some t, some r => some (t.add r) | _, _ => none) (some ⟨[], 0⟩) with
+      | none => rw [h2] at hf; simp at hf
+      | some r =>
+        rw [h2] at hf
+        simp only [Option.some.injEq] at hf
+        subst hf
+        rw [meshEval_add, hterm ab (by simp) t h1, ih (fun ab' h' => hterm ab' (by simp [h'])) r h2]
+        simp [lsum]
+
+theorem adjacent_of_cycle (g : List (Edge K)) (loop : List GNode) (h : isSimpleCycle g loop = true) :
+    ∀ ab ∈ loopPairs loop, hasEdge g ab.1 ab.2 = true := by
+  simp only [isSimpleCycle, Bool.and_eq_true, List.all_eq_true, adjacent] at h
+  exact h.1.2
+
+
+/-! ### a concrete circuit for the non-vacuity examples: V1 1 0 6; R1 1 2 3; R2 2 0 5, loop 0-1-2 -/
+
+def exCkt : List (Cpt ℚ) := [.V 1 0 0 6, .R 1 2 3, .R 2 0 5]
+def exSol : Ix → ℚ := fun i => match i with | node 1 => 6 | node 2 => 15/4 | br 0 => -3/4 | _ => 0
+def exLoop : List GNode := [.real 0, .real 1, .real 2]
+
+theorem exLoop_cycle : isSimpleCycle (buildGraph exCkt) exLoop = true := by decide
+theorem exAcc1 : accEdge (buildGraph exCkt) [exLoop] 1 1 = [(0, true)] := by decide
+theorem exAcc2 : accEdge (buildGraph exCkt) [exLoop] 2 2 = [(0, true)] := by decide
+theorem exIdx : ∀ ab ∈ loopPairs exLoop, ∀ idx c, component (buildGraph exCkt) ab.1 ab.2 = some (idx, c) →
+    isV c = false → (idx = 1 ∧ c = .R 1 2 3) ∨ (idx = 2 ∧ c = .R 2 0 5) := by
+  intro ab hab idx c hc hv
+  simp [exLoop, loopPairs, pairsFrom] at hab
+  rcases hab with rfl | rfl | rfl <;>
+    simp [component, buildGraph, enum, exCkt, addCpt, nodes2, hasEdge, Edge.joins, List.range, List.range.loop] at hc <;>
+    (obtain ⟨rfl, rfl⟩ := hc) <;> simp [isV] at hv <;> simp
 
 end Lcapy.Formulations
